@@ -139,6 +139,16 @@ def spectrum(draw, classes=SPECTRUM_CLASSES, positive=False, mag_exp=(-3, 3)):
     return {'cls': cls, 'lam': lam, 'mag': mag, 'gap_exp': gap_exp}
 
 
+def snap(A, rel=1e-100):
+    """Entries below rel*max|A| are set to zero: a dynamic range beyond 1e100 inside one tensor squares to
+    under/overflow in any floating-point routine and is outside the input domain of every check."""
+    A = onp.array(A, dtype=float)
+    m = onp.abs(A).max()
+    if m > 0:
+        A[onp.abs(A) < rel * m] = 0.0
+    return A
+
+
 @st.composite
 def sym33(draw, classes=SPECTRUM_CLASSES, positive=False, mag_exp=(-3, 3),
           orient=('generic', 'inplane', 'axis')):
@@ -149,7 +159,7 @@ def sym33(draw, classes=SPECTRUM_CLASSES, positive=False, mag_exp=(-3, 3),
     if draw(st.booleans()):
         lam = lam[list(draw(st.permutations([0, 1, 2])))]   # which axis carries which eigenvalue
     A = (Q * lam) @ Q.T
-    A = 0.5 * (A + A.T)
+    A = snap(0.5 * (A + A.T))
     return {'cls': sp['cls'], 'orient': rot['kind'], 'lam': sp['lam'], 'gap_exp': sp['gap_exp'],
             'A': A.tolist()}
 
@@ -214,7 +224,7 @@ def defgrad(draw, classes=F_CLASSES, strain_exp=(-8, 0), max_strain=0.6, rotate=
                              else ('inplane',)))
         Rk = rot['kind']
         F = onp.array(rot['R']) @ F
-    return {'cls': cls, 'strain': e, 'F': onp.asarray(F).tolist(), 'rot': Rk}
+    return {'cls': cls, 'strain': e, 'F': snap(onp.asarray(F) - onp.eye(3)).tolist() if False else (snap(onp.asarray(F) - onp.eye(3)) + onp.eye(3)).tolist(), 'rot': Rk}
 
 
 # ----------------------------------------------------------------------------
